@@ -166,6 +166,11 @@ def draw_params(rnd, cfg, edge='interior', physical=True):
     v = cfg['vib']
     if v in ('Harmonic', 'QRRHO'):
         n = rnd.randint(1, 9)
+        if rnd.random() < 0.12:
+            # a large molecule: 30-60 modes (hexane has 54); with stiff modes at the cold end of the range the
+            # partition function leaves the range of a double (sum(theta)/2T > 745) while every other quantity
+            # stays ordinary
+            n = rnd.randint(30, 60)
         wn = [edge_value(rnd, 'wn', edge, lambda: rnd.choice([rnd.uniform(10, 200), rnd.uniform(200, 1500),
                                                                rnd.uniform(1500, 4500)])) for _ in range(n)]
         k = rnd.random()
